@@ -28,13 +28,19 @@ def run(c):
     thorough = c.tier == "thorough"
     c.go2coq_sources = ["load.go", "load_ops.go"]
     c.rule = ("stream bytes: random bytes / mutated fixture rules files / mutated generated files; stream notdsl: a fixed catalogue of "
-              "type-correct non-DSL files (incl. the shapes that used to crash Load); stream dsl: generated rules (Where atoms include "
-              "comparisons over all operand classes: constant, Line, Type.Size, Value.Int(), Text on either side); stream struct: generated "
+              "type-correct non-DSL files (incl. the shapes that used to crash Load); stream dsl: first, for EVERY op of the regenerated "
+              "filter-op table whose DSL form takes a variable, rules that apply it to a variable no alternative binds / only the first of two "
+              "alternatives binds (plain, negated, in && and ||; as either operand of a comparison for the value-typed forms; as the argument "
+              "of Type.IdenticalTo) and to a bound one; then generated rules (Where atoms: any op of the table, comparisons over all operand "
+              "classes: constant, Line, Type.Size, Value.Int(), Text on either side); stream hist: 2-20 Loads on ONE engine, every failing "
+              "file of a pool of 75 rules files (ways a name does not resolve, ordinary errors, valid uses) followed by files that resolve names through the same "
+              "lookups, plus random histories; stream struct: generated "
               "file structures; a dsl case is non-trivial when the rule has >= 2 alternatives, or refers to a variable in "
               "Where/At/templates, or carries a name argument; distinct by its source text; other streams: distinct by "
               "(stream, outcome class, first 40 bytes of the error)")
     c.trusted += [
-        "go2coq placetable/validtables (switch tables, case-label lists, pinned statement lists, error-site scan)",
+        "go2coq placetable/validtables/optable (switch tables, case-label lists, pinned statement lists, error-site scan, the op table of "
+        "ir/filter_op.gen.go with the DSL form each op is documented with)",
         "gogrep / regexp verdicts and bound variables of each pattern alternative are inputs of the model (computed by the harness with the same libraries)",
         "harness/cmd/c06 (generators, 5 s timeout per Load, supervisor/child split with a 96 MB stack cap, 'located' = the message contains rules.go:<line>)",
     ]
